@@ -90,6 +90,29 @@ class Model:
 _model = None
 
 
+def _cleanup():
+    global _model
+    if _model is not None:
+        _model.close()
+        _model = None
+
+
+def discard():
+    """Kill the current model process (if any); the next model() call starts a new one."""
+    global _model
+    if _model is not None:
+        try:
+            _model.p.kill()
+        except Exception:
+            pass
+        _model = None
+
+
+import atexit
+
+atexit.register(_cleanup)
+
+
 def model():
     """Per-process singleton (worker processes create their own after fork)."""
     global _model
